@@ -166,6 +166,8 @@ structure Hd where
   fut : Bool := false
   view : Bool := false
   alive : Bool := false
+  used : Bool := false      -- the id has been handed out
+  busy : Bool := false      -- some thread is inside a call on this handle
   deriving Repr, Inhabited
 
 structure Th where
@@ -177,6 +179,8 @@ structure Th where
   pn : List Nat := []       -- task notifications expected likewise
   ng : Nat := 0             -- gid of a handle being created
   ns : Nat := 0             -- stream of a handle being created
+  s : Nat := 0              -- stream of the handle (fixed at the call)
+  single : Bool := false    -- ReadAttempt.state captured by load_attempt
   aux : Nat := 0            -- scratch: overwritten value id + 1 / unsubscribe's boolean
   deriving Repr, Inhabited
 
@@ -212,6 +216,7 @@ structure St where
   torn : Bool := false         -- a clone/view body saw the slot change (C04)
   taintAdd : Bool := false     -- F1 trigger happened
   live : Nat := 2              -- live handles
+  sused : Nat → Bool := fun s => s == 0   -- stream ids handed out
 
 inductive Label where
   | call (t : Nat) (o : Outer) (g v ng ns : Nat)
@@ -403,7 +408,7 @@ def stepRun (σ0 : St) (t : Nat) (inp : Nat) : Obs × St :=
   let σ := σ0.flush t
   let g := x.g
   let h_ := σ0.hs g
-  let s := h_.stream
+  let s := x.s
   let N := σ0.N
   match x.pc with
   | .idle => (defaultObs, σ0)
@@ -581,7 +586,7 @@ def stepRun (σ0 : St) (t : Nat) (inp : Nat) : Obs × St :=
        ({ σ with ref := upd σ0.ref (p % N) (σ0.ref (p % N) - 1) }).goto t (.r9 p false c))
   | .r9 p sg c =>
       let v := c.getD 0
-      if h_.uni then
+      if x.single then
         (mkObs σ0 t .store (.pos s) .rlx (a := p + 1),
          recvDone ({ σ with pos := upd σ0.pos s (p + 1), dlv := upd σ0.dlv s (σ0.dlv s ++ [v]) }) t (.okv v) (p % N))
       else
@@ -723,6 +728,7 @@ where
   stepLa2 (σ0 σ : St) (t : Nat) (x : Th) (s : Nat) : Obs × St :=
     let p := σ0.pos s
     let o := mkObs σ0 t .load (.pos s) .rlx (res := p)
+    let σ := σ.setTh t fun y => { y with single := (σ0.hs x.g).uni }
     match x.outer with
     | .tryRecvView | .recvView | .futTryRecvView | .futRecvView | .poll true => (o, σ.goto t (.v1 p))
     | _ => (o, σ.goto t (.is1 p))
@@ -742,7 +748,16 @@ def step (σ : St) : Label → St
   | .call t o g v ng ns =>
       let h_ := σ.hs g
       if (σ.th t).pc ≠ .idle then σ else
-      let σ1 := σ.setTh t fun y => { y with g := g, v := v, outer := o, ng := ng, ns := ns, ff := [], pn := [] }
+      -- a call needs a live handle nobody else is using (Rust ownership), fresh ids for what it creates
+      if !h_.alive || h_.busy then σ else
+      let needG := o = Outer.clone || o = Outer.addStream
+      let needS := o = Outer.addStream || o = Outer.intoMultiFut
+      if needG && ((σ.hs ng).used || ng = g) then σ else
+      if needS && σ.sused ns then σ else
+      let σ := if needS then { σ with sused := upd σ.sused ns true } else σ
+      let σ := σ.setHd g fun y => { y with busy := true }
+      let h_ := σ.hs g
+      let σ1 := σ.setTh t fun y => { y with g := g, v := v, outer := o, ng := ng, ns := ns, s := h_.stream, ff := [], pn := [] }
       match o with
       | .trySend => σ1.goto t .s0
       | .startSend _ _ =>
@@ -756,11 +771,11 @@ def step (σ : St) : Label → St
       | .clone =>
           if h_.sender then
             ((σ1.setHd g fun y => { y with uni := false }).setHd ng fun _ =>
-              { sender := true, stream := 0, uni := false, fut := h_.fut, view := false, alive := true }).goto t .cs1
+              { sender := true, stream := 0, uni := false, fut := h_.fut, view := false, alive := true, used := true }).goto t .cs1
           else
-            (σ1.setHd ng fun _ => { h_ with uni := false, alive := true }).goto t .cr1
+            (σ1.setHd ng fun _ => { h_ with uni := false, alive := true, used := true, busy := false }).goto t .cr1
       | .addStream =>
-          (σ1.setHd ng fun _ => { h_ with stream := ns, uni := true, alive := true }).goto t .a1
+          (σ1.setHd ng fun _ => { h_ with stream := ns, uni := true, alive := true, used := true, busy := false }).goto t .a1
       | .drop => if h_.sender then (σ1.setHd g fun y => { y with alive := false }).goto t .ds1
                  else (σ1.setHd g fun y => { y with alive := false }).goto t .dr1
       | .unsub => if h_.sender then (σ1.setHd g fun y => { y with alive := false }).goto t .ds1
@@ -775,7 +790,7 @@ def step (σ : St) : Label → St
       match (σ.th t).pc with
       | .ret _ =>
           let x := σ.th t
-          let σ1 := (σ.goto t .idle).flush t
+          let σ1 := ((σ.goto t .idle).flush t).setHd x.g fun y => { y with busy := false }
           match x.outer with
           | .intoSingle | .intoSingleFut =>
               if (σ.th t).pc = .ret .single then σ1.setHd x.g fun y => { y with view := true } else σ1
@@ -797,7 +812,7 @@ def init (N : Nat) (bcast : Bool) (wait : WaitK) (fut : Bool) : St :=
   { N, bcast, wait,
     groups := upd (fun _ => []) 1 [0],
     ncons := upd (fun _ => 0) 0 1,
-    hs := upd (upd (fun _ => {}) 0 { sender := true, alive := true, fut := fut })
-              1 { sender := false, alive := true, fut := fut } }
+    hs := upd (upd (fun _ => {}) 0 { sender := true, alive := true, fut := fut, used := true })
+              1 { sender := false, alive := true, fut := fut, used := true } }
 
 end MQ
